@@ -180,10 +180,15 @@ def _norm(x: T.Term):
     if op == "div":
         return mul(norm(a[0]), power(norm(a[1]), -1))
     if op in ("pow", "np.power") and len(a) == 2:
-        e = const_value(norm(a[1]))
+        ep = norm(a[1])
+        e = const_value(ep)
         if e is not None:
             return power(norm(a[0]), e)
-        return var(T.mk("pow", (canon(a[0]), canon(a[1]))))
+        # symbolic exponent: fix the sign so that  b**(-e) == (b**e)**-1
+        if ep and ep[min(ep, key=_mono_key)] < 0:
+            pos = from_poly(mul(const(-1), ep))
+            return power(var(T.mk("pow", (canon(a[0]), pos))), -1)
+        return var(T.mk("pow", (canon(a[0]), from_poly(ep))))
     if op == "np.sqrt" and len(a) == 1:
         return power(norm(a[0]), Fraction(1, 2))
     if op == "np.hypot" and len(a) == 2:
@@ -197,6 +202,16 @@ def _norm(x: T.Term):
     if op == "np.asarray" and len(a) == 1 and not x.kwargs:
         return norm(a[0])
     if op == "atom":
+        return var(x)
+    if op == "nf.poly":
+        r = {}
+        for c, mono in a:
+            m = const(Fraction(c))
+            for t, e in mono:
+                m = mul(m, power(norm(t), Fraction(e)))
+            r = add(r, m)
+        return r
+    if op == "nf.const":
         return var(x)
     return var(canon_args(x))
 
